@@ -39,7 +39,8 @@ DelRRs  == {RR(o, "NONE", t, 0, rd) : o \in Owners, t \in DataT, rd \in Rds}
            \cup {SOARR(AP, "NONE", 0, <<0, 0>>), SOARR(NA, "NONE", 0, <<0, 0>>)}
 BadUpd  == {RR(OUT, "IN", "A", 300, 1), RR(NA, "CH", "A", 0, 1), RR(NA, "IN", "ANY", 0, 0),
             RR(NA, "ANY", "A", 300, 0), RR(NA, "ANY", "A", 0, 1), RR(NA, "ANY", "AXFR", 0, 0),
-            RR(NA, "NONE", "A", 300, 1), RR(NA, "NONE", "ANY", 0, 0), RR(NA, "IN", "AXFR", 0, 0)}
+            RR(NA, "NONE", "A", 300, 1), RR(NA, "NONE", "ANY", 0, 0), RR(NA, "IN", "AXFR", 0, 0),
+            RR(NA, "IN", "A", 300, 0)}      \* zone class, RDLENGTH 0: refused or added as it is
 UpdRRs  == AddRRs \cup DelSets \cup DelRRs \cup BadUpd
 
 PreRRs  == {RR(o, c, t, 0, 0) : o \in Owners, c \in {"ANY", "NONE"}, t \in DataT \cup {"ANY", "SOA"}}
